@@ -281,6 +281,7 @@ sds_read_header (SF_PRIVATE *psf, SDS_PRIVATE *psds)
 
 	for (blockcount = 0 ; bytesread < psf->filelength ; blockcount++)
 	{
+		marker = 0 ;
 		bytesread += (int) psf_fread (&marker, 1, 2, psf) ;
 
 		if (marker == 0)
